@@ -21,7 +21,10 @@ EXTENDS Naturals, Sequences, FiniteSets, TLC
 
 CONSTANTS MaxTests, MaxOps, Family     \* Family: "all" | "interplay" (operations whose restore order / option context matters) | "persist" | "script"
 
-VarNames == {"v1", "BASH_MYVAR"}    \* an ordinary name, and a user variable whose name starts like bash-owned ones
+\* an ordinary name, a user variable whose name starts like bash-owned ones, and one whose name starts with the name of a
+\* variable scrut itself sets (only a few operations on that one, to keep the state space small)
+MainNames == {"v1", "BASH_MYVAR"}
+VarNames == MainNames \cup {"TMPDIR_ORIG"}
 Values   == {"plain", "spaces", "squote", "dquote", "newline", "utf8", "empty", "glob_chars", "dollar"}
 Opts     == {"noglob", "nounset", "pipefail", "noclobber"}
 Shopts   == {"extglob", "nullglob", "dotglob"}
@@ -34,12 +37,13 @@ InitState == [vars |-> [n \in VarNames |-> UnsetVar], funcs |-> [f \in {"f1"} |-
 \* operations
 Op(name, a, b, c) == [op |-> name, a |-> a, b |-> b, c |-> c]
 OpsOn(st) ==
-      {Op("setvar", n, k, v) : n \in VarNames, k \in {"scalar", "indexed", "assoc"}, v \in Values}
- \cup {Op("setexported", n, "scalar", v) : n \in VarNames, v \in Values}
+      {Op("setvar", n, k, v) : n \in MainNames, k \in {"scalar", "indexed", "assoc"}, v \in Values}
+ \cup {Op("setexported", n, "scalar", v) : n \in MainNames, v \in Values}
+ \cup {Op("setvar", "TMPDIR_ORIG", "scalar", "plain"), Op("setexported", "TMPDIR_ORIG", "scalar", "plain")}
  \* a variable given through the test case's `environment` configuration (only for names the session does not hold yet:
  \* what a configured value means for a name the restored state also defines is not specified); it behaves like an exported
  \* variable of that test case's shell and is carried on like one
- \cup {Op("cfgenv", n, "scalar", v) : n \in {x \in VarNames : st.vars[x].kind = "unset"}, v \in Values}
+ \cup {Op("cfgenv", n, "scalar", v) : n \in {x \in MainNames : st.vars[x].kind = "unset"}, v \in Values}
  \cup {Op("unsetvar", n, "-", "-") : n \in {x \in VarNames : st.vars[x].kind # "unset"}}
  \cup {Op("export", n, "-", "-") : n \in {x \in VarNames : st.vars[x].kind = "scalar" /\ ~st.vars[x].ex}}
  \cup {Op("unexport", n, "-", "-") : n \in {x \in VarNames : st.vars[x].ex}}
@@ -93,7 +97,7 @@ vars == <<hist, sess, file, proc, obs, ref, pc, cur>>
 
 \* family "persist": the first test case turns ONE option on, the second performs one representative operation (or turns
 \* that option off again), the third only looks: options under which the EXIT-trap dump itself runs (noclobber, nounset, ...)
-Representative(o) == \/ o.op \in {"setvar", "setexported", "cfgenv"} /\ o.a = "v1" /\ o.b = "scalar" /\ o.c = "plain"
+Representative(o) == \/ o.op \in {"setvar", "setexported", "cfgenv"} /\ o.a \in {"v1", "TMPDIR_ORIG"} /\ o.b = "scalar" /\ o.c = "plain"
                      \/ o.op \in {"deffunc", "defalias"} /\ o.b = "1"
                      \/ o.op \in {"cd", "pushd"} /\ o.a = "sub1"
                      \/ o.op = "setopt" /\ (o.b = "off" \/ o.a = "pipefail")
